@@ -9,6 +9,8 @@ package c05
 import (
 	"encoding/json"
 	"fmt"
+	"github.com/openconfig/goyang/pkg/yang"
+	"github.com/openconfig/goyang/pkg/yangentry"
 	"os"
 	"os/exec"
 	"path/filepath"
@@ -19,8 +21,8 @@ import (
 
 	"verif/mc/core"
 	"verif/mc/dump"
-	"verif/mc/gen/scale"
 	"verif/mc/explore"
+	"verif/mc/gen/scale"
 	"verif/mc/order"
 )
 
@@ -283,6 +285,42 @@ func errorListOK(errs []error) string {
 	return ""
 }
 
+// viaYangentry: a directory holding the files of the scenario under way, when the run also goes
+// through yangentry.Parse (first load order of every scenario); "" otherwise.
+var viaYangentry string
+
+// lastYangentry: what the last run got from yangentry.Parse ("" when it did not go that way).
+var lastYangentry string
+
+// yangentrySummary: what yangentry.Parse returns for the files read from disk in the given order -
+// per name the revision and the number of top-level nodes of the tree filed under it, or the errors.
+func yangentrySummary(fs []dump.File) string {
+	var paths []string
+	for _, f := range fs {
+		paths = append(paths, filepath.Join(viaYangentry, f.Name))
+	}
+	entries, errs := yangentry.Parse(paths, nil)
+	if len(errs) > 0 {
+		return fmt.Sprintf("yangentry.Parse: %d errors", len(errs))
+	}
+	var keys []string
+	for k := range entries {
+		keys = append(keys, k)
+	}
+	sort.Strings(keys)
+	var sb strings.Builder
+	sb.WriteString("yangentry.Parse:")
+	for _, k := range keys {
+		e := entries[k]
+		rev := ""
+		if m, ok := e.Node.(*yang.Module); ok {
+			rev = m.Current()
+		}
+		fmt.Fprintf(&sb, " %s=%s@%s/%d", k, e.Name, rev, len(e.Dir))
+	}
+	return sb.String()
+}
+
 // runOnce executes a scenario in a given load order under the map-order answers of x.
 func runOnce(files []dump.File, ord []int, x *explore.X) (summary, listProblem string) {
 	order.Install(func(n int, site string) int { return x.Choose(n, site) })
@@ -295,6 +333,10 @@ func runOnce(files []dump.File, ord []int, x *explore.X) (summary, listProblem s
 		r := dump.Run(fs, dump.Options{Positions: true})
 		summary = r.Summary()
 		listProblem = errorListOK(r.ProcErrs)
+		lastYangentry = ""
+		if viaYangentry != "" {
+			lastYangentry = yangentrySummary(fs)
+		}
 	})
 	if pan {
 		summary = "PANIC: " + pt
@@ -335,22 +377,41 @@ func run(c *core.Ctx) {
 		b = 1 // four sources: 24 orders, keep the quadratic deviation space to three-source scenarios
 	}
 	outcomes := map[string]Exec{}
-	var first string
+	youtcomes := map[string]Exec{} // what yangentry.Parse returned, first load order only
+	var first, yfirst string
 	caseNo, run := c.Begin()
 	if c.Skip(caseNo, run, Input{Scenario: s.name, Files: s.files}) {
 		return
 	}
-	for _, ord := range explore.Perms(len(s.files)) {
+	ydir := filepath.Join(os.Getenv("VERIF_SCRATCH_DIR"), fmt.Sprintf("yangentry-%d", si))
+	os.MkdirAll(ydir, 0o755)
+	for _, f := range s.files {
+		os.WriteFile(filepath.Join(ydir, f.Name), []byte(f.Text), 0o644)
+	}
+	defer os.RemoveAll(ydir)
+	for oi, ord := range explore.Perms(len(s.files)) {
 		ord := ord
+		viaYangentry = ""
+		if oi == 0 {
+			viaYangentry = ydir
+		}
 		st, complete := explore.DFS(b, func(x *explore.X) {
 			sum, lp := runOnce(s.files, ord, x)
 			if lp != "" {
 				e := Exec{append([]int{}, ord...), append([]int{}, x.Choices...)}
 				c.Fail(caseNo, s.classes, "error-list-malformed", Input{Scenario: s.name, Files: s.files, A: e, B: e, Kind: "list"}, "ordered by file:line:col, no duplicates", lp)
 			}
-			x.Labels = []string{sum}
+			x.Labels = []string{sum, lastYangentry}
 		}, func(x *explore.X) {
 			sum := x.Labels[0]
+			if y := x.Labels[1]; y != "" {
+				if _, ok := youtcomes[y]; !ok {
+					youtcomes[y] = Exec{append([]int{}, ord...), append([]int{}, x.Choices...)}
+					if yfirst == "" {
+						yfirst = y
+					}
+				}
+			}
 			if _, ok := outcomes[sum]; !ok {
 				outcomes[sum] = Exec{append([]int{}, ord...), append([]int{}, x.Choices...)}
 				if first == "" {
@@ -370,6 +431,16 @@ func run(c *core.Ctx) {
 		panic("map key types without canonical order: " + strings.Join(nc, ", "))
 	}
 	c.NontrivialN(1)
+	if len(youtcomes) > 1 {
+		var other string
+		for k := range youtcomes {
+			if k != yfirst && (other == "" || k < other) {
+				other = k
+			}
+		}
+		c.Outcome("FAIL:yangentry-outcomes")
+		c.Fail(caseNo, s.classes, "yangentry-outcome-depends-on-map-order", Input{Scenario: s.name, Files: s.files, A: youtcomes[yfirst], B: youtcomes[other], Kind: "yangentry"}, yfirst, other)
+	}
 	if len(outcomes) > 1 {
 		var keys []string
 		for k := range outcomes {
@@ -497,8 +568,33 @@ func replay(tier string, raw json.RawMessage) (bool, string, string) {
 		return replayCLI(in)
 	}
 	idOrd := in.A.Order
+	// the first load order of a scenario also goes through yangentry.Parse
+	ydir, _ := os.MkdirTemp(os.Getenv("VERIF_SCRATCH_DIR"), "yangentry-replay")
+	defer os.RemoveAll(ydir)
+	for _, f := range in.Files {
+		os.WriteFile(filepath.Join(ydir, f.Name), []byte(f.Text), 0o644)
+	}
+	first := func(ord []int) string {
+		for i, o := range ord {
+			if i != o {
+				return ""
+			}
+		}
+		return ydir
+	}
+	viaYangentry = first(idOrd)
 	a, lpa := runOnce(in.Files, idOrd, explore.New(in.A.Choices))
+	ya := lastYangentry
+	viaYangentry = first(in.B.Order)
 	b, lpb := runOnce(in.Files, in.B.Order, explore.New(in.B.Choices))
+	yb := lastYangentry
+	viaYangentry = ""
+	if in.Kind == "yangentry" {
+		if ya != yb {
+			return true, "yangentry-outcome-depends-on-map-order", fmt.Sprintf("execution A (map choices %v):\n%s\nexecution B (map choices %v):\n%s", in.A.Choices, ya, in.B.Choices, yb)
+		}
+		return false, "", "both executions agree"
+	}
 	if in.Kind == "list" {
 		if lpa != "" {
 			return true, "error-list-malformed", lpa
